@@ -24,14 +24,14 @@ META = {
             "validity / host-name / negotiation contract as Section variables, for every configuration and peer: no version below "
             "TLS 1.2; with verification on a client session exists only if the server certificate chains to a configured anchor, is "
             "within its validity and - for a connection made to a host name - is issued for that name; a server that verifies its "
-            "peers admits only clients presenting a valid certificate; TLS requested never degrades to plaintext. The code as found "
-            "is refuted on three of these. Tied to the code by running every matrix cell as a real handshake against raw OpenSSL "
+            "peers admits only clients presenting a valid certificate; TLS requested never degrades to plaintext. An HttpClient session for a named https URL "
+            "checks that name. The code as found is refuted on three of these. Tied to the code by running every matrix cell as a real handshake against raw OpenSSL "
             "peers (certificates generated through the OpenSSL API), with a relay checking that no application byte crosses in clear.",
     "design_ref": "DESIGN.md §7 C07",
     "note": "partial: X.509 path building, validity and name matching, and version negotiation are OpenSSL's (the Section's contract, "
             "exercised for real by every cell); the engine's configuration / decision logic is what is proved. HttpClient hands the "
-            "engine a resolved ADDRESS, so its sessions get no host-name check (C07-F11b2, recorded: repairing it needs a host-name "
-            "parameter through ITransport::connect); HttpClient also ignores TlsConfig.caFile / client certificate (fails closed). "
+            "engine a resolved ADDRESS together with the URL's host as TLS server name (since the repair of C07-F11b2; cells "
+            "host=ipname exercise that path on the engine directly); HttpClient ignores TlsConfig.caFile / client certificate (fails closed). "
             "Trusted: Coq kernel; extraction + OCaml driver (instantiates the oracle from the generated certificates); "
             "harness/c07_impl.cpp; OpenSSL 3.0.",
 }
@@ -40,7 +40,7 @@ META = {
 def matrix(thorough):
     cases = []
     certs = ["valid", "self", "expired", "wrongname", "wrongca"]
-    for verify, anchor, cert, host in itertools.product("01", ["A", "B", "none"], certs, ["name", "ip"]):
+    for verify, anchor, cert, host in itertools.product("01", ["A", "B", "none"], certs, ["name", "ip", "ipname"]):
         cases.append("CL verify=%s anchor=%s cert=%s host=%s pmin=10 pmax=13 cmin=0" % (verify, anchor, cert, host))
     # protocol ceilings / floors on both sides
     for pmax, cmin in itertools.product(["10", "11", "12", "13"], ["0", "10", "11", "12", "13"]):
@@ -60,7 +60,8 @@ def matrix(thorough):
 
 
 def property_expect(line):
-    """what the PROPERTY demands where it is stricter than what the model says the code does"""
+    """what the PROPERTY demands, stated independently of the model: an HttpClient that verifies its peer must refuse a
+    certificate issued for another name (C07-F11b2, repaired)"""
     if line.startswith("HC ") and "verify=1" in line and "cert=wrongname" in line and "anchor=A" in line:
         return "ok=0"
     return None
